@@ -14,7 +14,7 @@
      "bcrypt_check accepted a non-matching pair" / "bcrypt_check rejected the matching pair" / "bcrypt_check accepted a malformed hash" /
      "bcrypt_check raised <class> instead of ValueError"
    Observations outside the statement (reported as notes, never as violations): "note: refused ... with <class>" when the refusal is
-   neither ValueError nor TypeError (the statement says "refused", it names no class).
+   neither ValueError nor TypeError (the statement says "refused", it names no class).  MemoryError / RecursionError are not refusals.
    Clauses starting with "harness:" are recorder inconsistencies (machinery failures).
 
    Where the specifications are silent the trace specification is permissive, by these named operators:
@@ -29,6 +29,8 @@ EXTENDS Bytes, Json, IOUtils
 K == INSTANCE KDF
 Traces == JsonDeserialize(IOEnv.TRACE_FILE)
 DocumentedClass(x) == x \in {"ValueError", "TypeError"}
+\* running out of memory (the recorder caps its address space at 6 GiB) or of stack is not a refusal: the call attempted the work
+Exhaustion(x) == x \in {"MemoryError", "RecursionError"}
 DIFFERS == "derived key differs from the specification"
 SLICES == "keys are not consecutive slices of the single-key stream"
 \* the common judgement.  reason = "" when the parameters are in the domain, else which condition fails; zero = a total length of 0 was
@@ -36,7 +38,7 @@ SLICES == "keys are not consecutive slices of the single-key stream"
 \* the domain; value = the verdict on the returned value (evaluated only when it is needed)
 Judge(e, reason, zero, isEmpty, silent, value) ==
    IF zero THEN (IF e.exc # "none" \/ isEmpty THEN "ok" ELSE DIFFERS)
-   ELSE IF reason # "" THEN (IF e.exc = "none" THEN "out-of-domain parameters were not refused: " \o reason
+   ELSE IF reason # "" THEN (IF e.exc = "none" \/ Exhaustion(e.exc) THEN "out-of-domain parameters were not refused: " \o reason
                              ELSE IF DocumentedClass(e.exc) THEN "ok"
                              ELSE "note: refused out-of-domain parameters (" \o reason \o ") with " \o e.exc)
    ELSE IF e.exc # "none" THEN (IF silent THEN "ok" ELSE "refused parameters inside the domain (" \o e.exc \o ")")
